@@ -3,6 +3,7 @@ import ast
 import importlib
 import json
 import os
+import sys
 import time
 import traceback
 from concurrent.futures import ProcessPoolExecutor
@@ -113,20 +114,28 @@ LOAD_ERRORS = {}
 _LOADED = False
 
 
-def load_rules():
-    """Import every rules/Cxx.py; a module that fails to import only disables its own property."""
+def load_rules(only=None):
+    """Import rules/Cxx.py (all of them, or just the module of one property).
+
+    A module that fails to import only disables its own property.
+    """
     global _LOADED
-    if _LOADED:
-        return
-    _LOADED = True
     pkg = os.path.join(os.path.dirname(os.path.abspath(__file__)), 'rules')
-    for fn in sorted(os.listdir(pkg)):
-        if fn.endswith('.py') and not fn.startswith('_'):
-            try:
-                importlib.import_module(f'omstatic.rules.{fn[:-3]}')
-            except Exception as e:
-                LOAD_ERRORS[fn[:-3]] = f'{type(e).__name__}: {e}'
-                REGISTRY.pop(fn[:-3], None)
+    if only is not None:
+        names = [only] if os.path.isfile(os.path.join(pkg, only + '.py')) else []
+    else:
+        if _LOADED:
+            return
+        _LOADED = True
+        names = [fn[:-3] for fn in sorted(os.listdir(pkg)) if fn.endswith('.py') and not fn.startswith('_')]
+    for nm in names:
+        if nm in LOAD_ERRORS or f'omstatic.rules.{nm}' in sys.modules:
+            continue
+        try:
+            importlib.import_module(f'omstatic.rules.{nm}')
+        except Exception as e:
+            LOAD_ERRORS[nm] = f'{type(e).__name__}: {e}'
+            REGISTRY.pop(nm, None)
 
 
 def run_rules(prop, repo, tier='quick', only=None):
@@ -150,7 +159,7 @@ def run_rules(prop, repo, tier='quick', only=None):
             tb = traceback.format_exc().strip().splitlines()
             err = f'checker exception {type(e).__name__}: {e} [{tb[-3].strip() if len(tb) > 2 else ""}]'
         n_inst = sum(1 for i in o.items if i['status'] in ('ok', 'violation'))
-        if err is None and n_inst < spec.floor and not any(i['status'] == 'violation' for i in o.items):
+        if err is None and n_inst < spec.floor:
             err = (f'only {n_inst} instance(s) recognised, expected at least {spec.floor} '
                    f'(anchor moved or idiom not recognised)')
         out.append(dict(rule=spec.id, doc=spec.doc, items=o.items, counts=o.counts, notes=o.notes,
@@ -200,7 +209,7 @@ _BASE = None
 
 def _selftest_job(args):
     prop, i = args
-    load_rules()
+    load_rules(prop)
     m = SELFTEST[prop][i]
     base = _BASE or Repo()
     overrides = {}
@@ -222,7 +231,8 @@ def _selftest_job(args):
     only = None
     if m.kind == 'mutant' and m.expect:
         only = [m.expect] if isinstance(m.expect, str) else list(m.expect)
-    res = run_rules(prop, repo, 'quick', only=only)
+    # a mutant may name a thorough-tier rule; twins are judged by the quick-tier rules
+    res = run_rules(prop, repo, 'thorough' if only else 'quick', only=only)
     viol = [(r['rule'], it) for r in res for it in r['items'] if it['status'] == 'violation']
     errs = [(r['rule'], r['error']) for r in res if r['error']]
     und = [(r['rule'], it) for r in res for it in r['items'] if it['status'] == 'undecided']
@@ -295,7 +305,7 @@ def run_selftest(prop, base_items, findings, jobs=16, base_repo=None):
 # ------------------------------------------------------------------ top level
 def check_property(prop, tier='quick', seed=0, write=True):
     t0 = time.time()
-    load_rules()
+    load_rules(prop)
     if prop in LOAD_ERRORS:
         print(f'ANALYSIS-ERROR property={prop} rule module failed to import: {LOAD_ERRORS[prop]}')
         return 2
